@@ -5,9 +5,12 @@ package main
 import (
 	"flag"
 	"fmt"
+	"iter"
 	"os"
+	"runtime"
 	"runtime/debug"
 	"strings"
+	"sync"
 
 	"verifharness/core"
 	"verifharness/hplug"
@@ -40,6 +43,12 @@ func itemTerm(paths map[workflow.Object]string, it walk.Item) string {
 // values as they are (Chain not copied, as slices.Collect(walk.Plan(p)) would) and abstracts them only
 // after the walk has returned, so chains that share a backing array with later ones show up.
 func walkStop(p *workflow.Plan, paths map[workflow.Object]string, k int) (o, kept stopObs) {
+	return walkSeq(walk.Plan(p), paths, k, nil)
+}
+
+// walkSeq runs one walk over a given iter.Seq value (which may have been walked before, or be walked by
+// another goroutine at the same time); between is called between two consumer calls (scheduling point).
+func walkSeq(seq iter.Seq[walk.Item], paths map[workflow.Object]string, k int, between func()) (o, kept stopObs) {
 	o.K, o.Reading = k, "in-loop"
 	var items []walk.Item
 	defer func() {
@@ -51,13 +60,72 @@ func walkStop(p *workflow.Plan, paths map[workflow.Object]string, k int) (o, kep
 			kept.Items = append(kept.Items, itemTerm(paths, it))
 		}
 	}()
-	walk.Plan(p)(func(it walk.Item) bool {
+	seq(func(it walk.Item) bool {
 		o.Calls++
 		items = append(items, it)
 		o.Items = append(o.Items, itemTerm(paths, it))
+		if between != nil {
+			between()
+		}
 		return o.Calls != k
 	})
 	return o, kept
+}
+
+// reuse walks ONE iter.Seq value of the plan several times: the property is about every walk, not only
+// about the first walk of a fresh walk.Plan(p).  Each walk is one more stop observation for the model.
+//   - a walk stopped at k, then a full walk, for k = 1, the middle, the last item;
+//   - two more full walks in a row;
+//   - two goroutines walking it at the same time, each collecting its own items: full + full, and
+//     stopped-in-the-middle + full.
+func reuse(p *workflow.Plan, paths map[workflow.Object]string, total int) []stopObs {
+	seq := walk.Plan(p)
+	var obs []stopObs
+	add := func(o stopObs, reading string) {
+		o.Reading = reading
+		obs = append(obs, o)
+	}
+	ks := []int{1}
+	if total/2 > 1 {
+		ks = append(ks, total/2)
+	}
+	if total > 2 {
+		ks = append(ks, total)
+	}
+	for _, k := range ks {
+		o, _ := walkSeq(seq, paths, k, nil)
+		add(o, "same-seq:stopped")
+		o, _ = walkSeq(seq, paths, 0, nil)
+		add(o, "same-seq:full-after-stopped")
+	}
+	for i := 0; i < 2; i++ {
+		o, kept := walkSeq(seq, paths, 0, nil)
+		add(o, "same-seq:full-again")
+		if i == 1 {
+			add(kept, "same-seq:full-again-kept")
+		}
+	}
+	for _, k := range []int{0, (total + 1) / 2} {
+		var wg sync.WaitGroup
+		res := make([]stopObs, 2)
+		start := make(chan struct{})
+		for g, kk := range []int{k, 0} {
+			wg.Add(1)
+			go func() {
+				defer wg.Done()
+				<-start
+				res[g], _ = walkSeq(seq, paths, kk, runtime.Gosched)
+			}()
+		}
+		close(start)
+		wg.Wait()
+		add(res[0], "same-seq:concurrent-a")
+		add(res[1], "same-seq:concurrent-b")
+	}
+	// and once more afterwards: nothing that happened above may have changed what a walk yields
+	o, _ := walkSeq(seq, paths, 0, nil)
+	add(o, "same-seq:full-at-the-end")
+	return obs
 }
 
 func pathOf(paths map[workflow.Object]string, o workflow.Object) string {
@@ -162,6 +230,8 @@ func main() {
 		if strings.Join(full.Items, "|") != strings.Join(fullKept.Items, "|") {
 			keptDiffers++
 		}
+		re := reuse(p, paths, total)
+		obs = append(obs, re...)
 		seqsWithActions := 0 // max over blocks of the number of sequences that have actions (>= 2 needed to see chain aliasing)
 		for _, b := range p.Blocks {
 			n := 0
@@ -189,7 +259,7 @@ func main() {
 			Nontrivial: total > 3,
 			Hash:       core.Hash(strings.Join(full.Items, "|")),
 			Dist:       map[string]any{"objects": total, "stops": len(obs), "reshaped": did, "blocks": len(p.Blocks),
-				"kept_differs": keptDiffers, "seqs_with_actions": seqsWithActions},
+				"kept_differs": keptDiffers, "same_seq_walks": len(re), "seqs_with_actions": seqsWithActions},
 			Input:      map[string]any{"seed": core.Seed(), "index": i, "opts": o},
 			Observed:   obs,
 		}
